@@ -204,25 +204,26 @@ Proof.
 Qed.
 
 (* ---- TLS 1.3 PSK selection ------------------------------------------------------ *)
-Lemma server_psk_sound cfg cp (h : hello blob) k p :
-  server_psk blob open cfg cp h = S13Psk k p ->
+Lemma server_psk_sound cfg cp (h : hello blob) now k p :
+  server_psk blob open cfg cp h now = S13Psk k p ->
   exists b bk, h_psk h = Some (b, bk) /\ In k (sv_keys cfg) /\ open k b = Some p /\
-               p_ver p = 4 /\ p_hash p = o_fhash cp /\ bk = p_ms p.
+               p_ver p = 4 /\ now <= p_created p + sv_life cfg /\ p_hash p = o_fhash cp /\ bk = p_ms p.
 Proof.
   unfold server_psk. destruct (h_psk h) as [[b bk]|]; [|discriminate].
   destruct (nonempty (sv_keys cfg)); cbn [negb]; [|discriminate].
   destruct (try_decrypt blob open (sv_keys cfg) b) as [[k0 p0]|] eqn:T; [|discriminate].
   destruct (p_ver p0 =? 4) eqn:V; cbn [negb]; [|discriminate].
+  destruct (p_created p0 + sv_life cfg <? now) eqn:L; [discriminate|].
   destruct (p_hash p0 =? o_fhash cp) eqn:Hh; cbn [negb]; [|discriminate].
   destruct (bk =? p_ms p0) eqn:B; cbn [negb]; [|discriminate].
   intros H. injection H as <- <-. apply try_decrypt_some in T. destruct T as [A O].
-  exists b, bk. apply Z.eqb_eq in V, Hh, B. repeat split; assumption.
+  exists b, bk. apply Z.eqb_eq in V, Hh, B. apply Z.ltb_ge in L. repeat split; assumption.
 Qed.
 
-Lemma server_psk_unopenable cfg cp (h : hello blob) b bk :
+Lemma server_psk_unopenable cfg cp (h : hello blob) now b bk :
   h_psk h = Some (b, bk) ->
   (forall k, In k (sv_keys cfg) -> open k b = None) ->
-  server_psk blob open cfg cp h = S13Full.
+  server_psk blob open cfg cp h now = S13Full.
 Proof.
   intros HP Hno. unfold server_psk. rewrite HP.
   destruct (nonempty (sv_keys cfg)); cbn [negb]; [|reflexivity].
